@@ -607,7 +607,9 @@ impl PrivateKey {
             der_key,
             &SystemRandom::new(),
         )
-        .unwrap();
+        .map_err(|_| {
+            Error::Encoding("Could not parse key as PKCS#8v2".into())
+        })?;
         let public = PublicKey::new(
             KeyType::Ecdsa,
             scheme,
@@ -751,7 +753,9 @@ impl PublicKey {
     ///
     /// See the documentation on `KeyValue` for more information on SPKI.
     pub fn from_pem_spki(pem: &str, scheme: SignatureScheme) -> Result<Self> {
-        let der_bytes = pem::parse(pem).unwrap();
+        let der_bytes = pem::parse(pem).map_err(|e| {
+            Error::Encoding(format!("Could not parse key as PEM: {:?}", e))
+        })?;
         Self::from_spki_with_keyid_hash_algorithms(
             der_bytes.contents(),
             scheme,
